@@ -25,11 +25,9 @@ from .c17 import (NONE, parse, top_units, find_unit, members, own_scopes, all_sy
 
 FILE = '<file>'
 
-K_MEMBER = 'pickle-member-parent-lost'
-K_IMPORTDT = 'pickle-derived-type-import-crash'
-K_CAST = 'pickle-cast-crash'
+# repaired by fix: commits in /repo (known_findings.json, status fixed): pickle-member-parent-lost, pickle-derived-type-import-crash,
+# pickle-cast-crash, pickle-sourcefile-ast-attr — the classifier no longer knows them, every such deviation is a violation
 K_PROC = 'pickle-drops-procedure-link'
-K_AST = 'pickle-sourcefile-ast-attr'
 
 
 # ------------------------------------------------------------------------------------------ generator
@@ -115,13 +113,8 @@ def node_has(n, pred):
 
 
 def label18(n):
-    """node label with the crash markers the model's `KnownImportDT` / `KnownCast` read"""
-    lbl = type(n).__name__
-    if isinstance(n, irn.Import) and node_has(n, lambda e: isinstance(e, sym.DerivedTypeSymbol)):
-        lbl += '!dt'
-    elif not isinstance(n, irn.Import) and node_has(n, lambda e: isinstance(e, sym.Cast)):
-        lbl += '!cast'
-    return lbl
+    """node label (the crash markers of the first wave are gone: unpickling must not raise)"""
+    return type(n).__name__
 
 
 class Export18(Export):
@@ -147,10 +140,6 @@ def make_request(src, defs, target):
     ex = export18(sf, dsf, roots)
     model = [A('pickle18'), ex.cells, [ex.addr[id(r)] for r in roots]]
     return [A('c18'), [A('src'), src], [A('defs'), defs], [A('target'), target], [A('model'), model]]
-
-
-def has_member_host(u):
-    return any(isinstance(x, Subroutine) and members(x) for x in [u] + all_units(u))
 
 
 def all_units(u):
@@ -207,22 +196,20 @@ class C18(Prop):
     title = 'Pickling round-trip preserves program units'
     model_modules = ['LokiModel.C17.Model', 'LokiModel.C17.Wire', 'LokiModel.C18.Model']
     props_module = 'LokiModel.Props.C18'
-    findings_module = 'LokiModel.Findings.C18'
     driver = 'Drivers/C18.lean'
-    theorems = ['unpickle_inv', 'unpickle_attached_partial', 'unpickle_fresh_partial']
+    theorems = ['unpickle_inv', 'unpickle_attached', 'attInv_of_fresh', 'unpickle_fresh_partial']
     design_ref = 'DESIGN.md 4.B C17 / C18'
     level = 'proof'
     level_text = ('Proved for all heaps with the ownership invariant, all units and fuel values: unpickle_inv (the round trip keeps every '
                   'owner tag and allocates only cells whose strong references stay in the copy and whose parents/scopes are in the copy '
-                  'or the environment). _partial: unpickle_attached_partial (every symbol of the copy is unattached or attached inside '
-                  'the copy — "unattached" is what happens in the known class pickle-member-parent-lost, and the hypothesis that the '
-                  'ghost flag is still clear is checked by correspondence), unpickle_fresh_partial (nothing mutable shared, given the '
-                  'typedef links of the copy respect ownership — the model drops them). NOT proved: render(unpickle(pickle u)) = render u '
-                  'and type equality (correspondence + direct oracle only).')
+                  'or the environment) and unpickle_attached (EVERY symbol occurrence of the copy is attached to a scope object of the '
+                  'copy; hypothesis: the ghost flag "a name is declared nowhere in the new chain" is clear, compared by correspondence). '
+                  '_partial: unpickle_fresh_partial (nothing mutable shared, given the typedef links of the copy respect ownership — the '
+                  'model drops them). NOT proved: render(unpickle(pickle u)) = render u and type equality (correspondence + oracle only).')
     level_note = ('pickle is modelled as a deep copy that drops exactly what the __getstate__ methods drop and re-attaches what the '
                   '__setstate__ methods re-attach; the pickle byte format, the reduce protocol of dict/tuple/pymbolic/pydantic classes, '
-                  'memoisation order and the deep copy of TypeDef nodes reached through DerivedType.typedef are not modelled; exceptions '
-                  'while unpickling are predicted from two syntactic classes of the input (labels set by the exporter).')
+                  'memoisation order and the deep copy of TypeDef nodes reached through DerivedType.typedef are not modelled; '
+                  'unpickling is modelled as total (an exception of the real code is a correspondence failure).')
     technique = 'Lean 4 theorems about the C17 heap model in pickle mode + correspondence with real pickle round trips'
     rule = ('generated Fortran files (module with optional derived type, module variables, imports of procedures / derived types from a '
             'definitions module with enrichment, routines with ASSOCIATE, member procedures, Cast expressions); the top-level unit or '
@@ -232,7 +219,7 @@ class C18(Prop):
     extra_obligations = ['heap-walker sharing set = model reach intersection (empty)']
 
     def classes(self):
-        return [K_MEMBER, K_IMPORTDT, K_CAST, K_PROC, K_AST]
+        return [K_PROC]
 
     def gen(self, rng, tier):
         n = dict(quick=32, thorough=300, search=150).get(tier, 32)
@@ -241,7 +228,7 @@ class C18(Prop):
             target = rng.choice(prog['targets'])
             req = make_request(prog['src'], prog['defs'], target)
             feats = ''.join(k[0] + k[-1] for k, v in sorted(prog['feats'].items()) if v)
-            yield Case(req, stream='crash' if (prog['feats']['impdt'] or prog['feats']['cast']) else 'roundtrip',
+            yield Case(req, stream='dt-import-or-cast' if (prog['feats']['impdt'] or prog['feats']['cast']) else 'roundtrip',
                        nontrivial=True, key=f'{feats}:{target}')
 
     def impl(self, req):
@@ -259,11 +246,8 @@ class C18(Prop):
 def oracle(req):
     fails = []
     r = Run18(req)
-    crash_dt = any(label18(n).endswith('!dt') for u in r.roots for x in [u] + all_units(u) for s in sections(x) for n in walk_nodes(s))
-    crash_cast = any(label18(n).endswith('!cast') for u in r.roots for x in [u] + all_units(u) for s in sections(x) for n in walk_nodes(s))
     if r.error:
-        cls = K_CAST if (r.error == 'attribute' and crash_cast) else K_IMPORTDT if (r.error == 'assertion' and crash_dt) else None
-        return [Failure(f'pickle.loads(pickle.dumps(x)) raises ({r.error})', cls)]
+        return [Failure(f'pickle.loads(pickle.dumps(x)) raises ({r.error})', None)]
     o, c = r.obj, r.copy
     txt = (lambda x: x.to_fortran()) if r.target == FILE else fgen
     if txt(o) != txt(c):
@@ -273,38 +257,30 @@ def oracle(req):
         fails.append(Failure('unpickled object does not compare equal to the original', K_PROC if ext else None))
     env = set(c17.walk(r.dsf, set())) if r.dsf else set()
     for uo, uc in zip(r.roots, r.croots):
-        member_host = has_member_host(uo)
         own_c = {id(x) for x in own_scopes(uc)}
         bad = [s for s in all_symbols(uc) if s.scope is None or id(s.scope) not in own_c]
         if bad:
-            fails.append(Failure(f'symbol {bad[0]} of the unpickled unit is attached to {bad[0].scope!r}, not to an unpickled scope',
-                                 K_MEMBER if member_host else None))
+            fails.append(Failure(f'symbol {bad[0]} of the unpickled unit is attached to {bad[0].scope!r}, not to an unpickled scope', None))
         to = [repr(s.type) for s in all_symbols(uo)]
         tc = [repr(s.type) for s in all_symbols(uc)]
         if to != tc:
             diff = [i for i, (a, b) in enumerate(zip(to, tc)) if a != b]
             names = {c17.lname(all_symbols(uo)[i].name) for i in diff}
-            if member_host and not bad:
-                cls = None
-            elif member_host:
-                cls = K_MEMBER
-            elif ext and names <= set(ext):
-                cls = K_PROC
-            else:
-                cls = None
-            fails.append(Failure(f'symbol types differ after the round trip: {sorted(names)[:4]}', cls))
+            fails.append(Failure(f'symbol types differ after the round trip: {sorted(names)[:4]}',
+                                 K_PROC if (ext and names <= set(ext)) else None))
         for mo, mc in zip(members_rec(uo), members_rec(uc)):
-            if (mo.parent is None) != (mc.parent is None):
-                fails.append(Failure(f'contained unit {mc.name} lost its parent', K_MEMBER if member_host else None))
+            if mc.parent is None or mc.parent.name != mo.parent.name:
+                fails.append(Failure(f'contained unit {mc.name} lost its parent', None))
                 break
         sh = shared_objects(uo, uc, env)
         if sh:
             fails.append(Failure('mutable objects shared with the original: ' + ', '.join(sorted(walker_label(x) for x in sh)), None))
-    if r.target == FILE:
-        try:
-            c.clone()
-        except AttributeError as e:
-            fails.append(Failure(f'unpickled Sourcefile is unusable: clone() raises {e}', K_AST))
+    try:
+        cc = c.clone()
+        if txt(cc) != txt(o):
+            fails.append(Failure('clone of the unpickled object generates different code', None))
+    except AttributeError as e:
+        fails.append(Failure(f'unpickled object is unusable: clone() raises {e}', None))
     return fails
 
 
